@@ -1,8 +1,16 @@
 // C12 E-SHIM harness: the concurrent skip list behind concurrent_{set,multiset,map,multimap}, with a scripted
-// level generator (the height of every inserted node is part of the scenario).
-// usage: sl <rand seed nruns | dfs bound maxruns | replay t,t,t,...>     (scenario on stdin)
-//   kind oset|omset|omap|ommap / pre ins:k:h ... / prog ins:k:h emp:k:h find:k has:k cnt:k lb:k trav
-// Output format as uo.cpp (variables: n<id>.next<level>, headptr, maxh, size).
+// level generator (the height of every inserted node is part of the scenario), user functors that can throw at their
+// k-th call inside one operation (comparator, element constructor, allocator) and an allocator that records deallocations.
+// usage: sl <rand seed nruns | dfs bound maxruns | replay t,t,t,...|- | guide segs | sweep H maxruns |
+//            frand seed nruns cap printcap | fsweep H maxruns cap printcap>     (scenario on stdin)
+//   kind oset|omset|omap|ommap / pre ins:k:h ... / prog ins:k:h emp:k:h find:k has:k cnt:k lb:k trav / fault tid op functor k
+//   frand : for every random schedule first a clean run, then one run per (thread, operation, functor, k <= number of calls the
+//           operation made in the clean run) with that call throwing, under the same schedule seed (at most `cap` per schedule)
+//   fsweep: as `sweep` (hold thread H after j scheduling points while every ordered selection of the others completes, then H);
+//           for every such guided schedule a clean run and then every fault position of thread H
+// Output format as uo.cpp (variables: n<id>.next<level>, headptr, maxh, size); additionally per run
+//   x tid functor k  (in the access log: the call that threw) / calls tid op functor=n ... / fault tid op functor k fired /
+//   dead <node ids deallocated during the run> / res ... 2 = the operation left by the injected exception
 #include "c12_common.h"
 #include <oneapi/tbb/concurrent_set.h>
 #include <oneapi/tbb/concurrent_map.h>
@@ -11,34 +19,46 @@ using namespace c12;
 static Scenario g_sc;
 static FairSchedule* g_fair = nullptr;
 static long g_obs_runs = 0;
+static std::vector<long> g_ops_done;
+static int g_focus = -1;
 static thread_local size_t t_height = 1;
 
 struct ScriptedLevels {
     static constexpr std::size_t max_level = 32;
     std::size_t operator()() { return t_height; }
 };
-using Less = std::less<uint64_t>;
-using PairT = std::pair<const uint64_t, uint64_t>;
+struct Less {
+    bool operator()(const Elem& a, const Elem& b) const { functor_call(F_CMP); return a.v < b.v; }
+};
+using PairT = std::pair<const Elem, uint64_t>;
 namespace d2 = tbb::detail::d2;
-using OSet = d2::concurrent_skip_list<d2::set_traits<uint64_t, Less, ScriptedLevels, BumpAlloc<uint64_t>, false>>;
-using OMSet = d2::concurrent_skip_list<d2::set_traits<uint64_t, Less, ScriptedLevels, BumpAlloc<uint64_t>, true>>;
-using OMap = d2::concurrent_skip_list<d2::map_traits<uint64_t, uint64_t, Less, ScriptedLevels, BumpAlloc<PairT>, false>>;
-using OMMap = d2::concurrent_skip_list<d2::map_traits<uint64_t, uint64_t, Less, ScriptedLevels, BumpAlloc<PairT>, true>>;
+using OSet = d2::concurrent_skip_list<d2::set_traits<Elem, Less, ScriptedLevels, BumpAlloc<Elem>, false>>;
+using OMSet = d2::concurrent_skip_list<d2::set_traits<Elem, Less, ScriptedLevels, BumpAlloc<Elem>, true>>;
+using OMap = d2::concurrent_skip_list<d2::map_traits<Elem, uint64_t, Less, ScriptedLevels, BumpAlloc<PairT>, false>>;
+using OMMap = d2::concurrent_skip_list<d2::map_traits<Elem, uint64_t, Less, ScriptedLevels, BumpAlloc<PairT>, true>>;
 
 template <class C> struct Tr;
-template <> struct Tr<OSet> { static constexpr bool multi = false; static uint64_t val(uint64_t k, uint64_t) { return k; } static uint64_t key(uint64_t v) { return v; } };
-template <> struct Tr<OMSet> { static constexpr bool multi = true; static uint64_t val(uint64_t k, uint64_t) { return k; } static uint64_t key(uint64_t v) { return v; } };
-template <> struct Tr<OMap> { static constexpr bool multi = false; static PairT val(uint64_t k, uint64_t tag) { return PairT(k, tag); } static uint64_t key(const PairT& v) { return v.first; } };
-template <> struct Tr<OMMap> { static constexpr bool multi = true; static PairT val(uint64_t k, uint64_t tag) { return PairT(k, tag); } static uint64_t key(const PairT& v) { return v.first; } };
+template <> struct Tr<OSet> { static constexpr bool multi = false; static Elem val(uint64_t k, uint64_t) { return Elem(k); } static uint64_t key(const Elem& v) { return v.v; } };
+template <> struct Tr<OMSet> { static constexpr bool multi = true; static Elem val(uint64_t k, uint64_t) { return Elem(k); } static uint64_t key(const Elem& v) { return v.v; } };
+template <> struct Tr<OMap> { static constexpr bool multi = false; static PairT val(uint64_t k, uint64_t tag) { return PairT(Elem(k), tag); } static uint64_t key(const PairT& v) { return v.first.v; } };
+template <> struct Tr<OMMap> { static constexpr bool multi = true; static PairT val(uint64_t k, uint64_t tag) { return PairT(Elem(k), tag); } static uint64_t key(const PairT& v) { return v.first.v; } };
 
 struct OpRes { std::string name; uint64_t key; std::vector<uint64_t> vals; };
+static bool g_last_fired = false;
+static long g_fired_by[F_N] = {0, 0, 0, 0, 0};
+static long g_postlink = 0, g_leaks = 0;      // fault runs in which an insert threw after / before its node was linked (node leaked)
 
+// print: 0 = only when a monitor fires, 1 = always, 2 = when the focus thread had a failed CAS, 3 = when the armed fault fired
 template <class C>
-static bool run_once(verif::Schedule& sch, int run_idx, bool print) {
+static bool run_once(verif::Schedule& sch, int run_idx, int print) {
     using T = Tr<C>;
     using node_ptr = typename C::node_ptr;
     arena().reset();
-    C* cp = new (arena().alloc(sizeof(C), 64, 2)) C();                     // never destroyed
+    FaultCtl& fc = fctl();
+    fc.fired = false;
+    fc.calls.assign(g_sc.progs.size(), {});
+    for (size_t t = 0; t < g_sc.progs.size(); ++t) fc.calls[t].assign(g_sc.progs[t].size(), CallCount());
+    C* cp = new (arena().alloc(sizeof(C), 64, 2)) C();                     // destroyed explicitly at the end of a healthy run
     C& c = *cp;
     size_t arena_mark = arena().recs.size();
     size_t T_n = g_sc.progs.size();
@@ -58,9 +78,31 @@ static bool run_once(verif::Schedule& sch, int run_idx, bool print) {
             fflush(stdout); _exit(3);
         }
     };
-    std::map<uint64_t, long> pre_cnt, started, completed, wins;
-    long ins_started = 0, ins_completed = 0; std::vector<std::string> observations;
+    auto raw_head = [&]() -> node_ptr { return c.my_head_ptr.a.load(); };
+    // white box, no scheduling points: the lowest level on which node `np` is reachable from the head (-1: none)
+    auto reachable_level = [&](const void* np) -> long {
+        node_ptr head = raw_head();
+        if (!head) return -1;
+        for (size_t l = 0; l < C::max_level; ++l) {
+            size_t n = 0; bool any = false;
+            for (node_ptr x = head->get_atomic_next(l).a.load(); x && n < walk_bound; x = x->get_atomic_next(l).a.load(), ++n) { any = true; if ((const void*)x == np) return (long)l; }
+            if (!any) break;
+        }
+        return -1;
+    };
+    // an allocation that is deallocated must not be reachable from the head any more (checked at the moment of the deallocation)
+    arena().on_dealloc = [&](size_t ri) {
+        if (ri < arena_mark) return;
+        const void* np = arena().base + arena().recs[ri].off;
+        if (np == (const void*)raw_head()) { fail("the head node is deallocated while the container is in use"); return; }
+        long l = reachable_level(np);
+        if (l >= 0) fail("node deallocated while it is still reachable from the head (level " + std::to_string(l) + "): a dead node stays linked");
+    };
+    std::map<uint64_t, long> pre_cnt, started, completed, wins, thrown_linked;
+    long ins_started = 0, ins_completed = 0, n_thrown_linked = 0; std::vector<std::string> observations;
     std::set<const void*> elems_done, elems_all;
+    std::set<size_t> leak_ok;                 // allocation records of nodes whose insert threw before the node was linked
+    std::set<const void*> partial_nodes;      // nodes whose insert threw after the level-0 link (upper levels may be incomplete)
     guarded([&] {
         for (auto& o : g_sc.pre) {
             t_height = o.arg ? o.arg : 1;
@@ -70,11 +112,13 @@ static bool run_once(verif::Schedule& sch, int run_idx, bool print) {
         }
     }, "sequential pre-insert phase");
     std::vector<std::vector<OpRes>> res(T_n);
+    g_ops_done.assign(T_n, 0);
 
     auto traverse = [&](std::vector<uint64_t>& keys, std::vector<const void*>& addrs, const char* who) {
         size_t n = 0; bool first = true; uint64_t last = 0;
         for (auto it = c.begin(); it != c.end(); ++it) {
             if (++n > walk_bound) { fail(std::string(who) + ": traversal does not terminate (cycle in the list)"); break; }
+            if (arena().is_dead(&*it)) fail(std::string(who) + ": iteration walks through a deallocated node (key bytes read as " + std::to_string(T::key(*it)) + ")");
             uint64_t k = T::key(*it);
             if (!first && (T::multi ? k < last : k <= last)) fail(std::string(who) + ": iteration not in comparator order (" + std::to_string(last) + " then " + std::to_string(k) + ")");
             first = false; last = k;
@@ -90,6 +134,11 @@ static bool run_once(verif::Schedule& sch, int run_idx, bool print) {
         }
         for (const void* a : before) if (!seen.count(a)) { fail(std::string(who) + ": missed an element that was present before the traversal began"); break; }
     };
+    // the value node an insert operation allocated (create_value_node allocates it before anything else), or -1
+    auto own_node_rec = [&](size_t t, size_t i) -> long {
+        for (size_t ri = arena_mark; ri < arena().recs.size(); ++ri) if (arena().recs[ri].tid == (int)t && arena().recs[ri].op == (int)i) return (long)ri;
+        return -1;
+    };
 
     verif::clear_names();
     std::vector<std::function<void()>> bodies;
@@ -98,28 +147,35 @@ static bool run_once(verif::Schedule& sch, int run_idx, bool print) {
             const OpSpec& o = g_sc.progs[t][i];
             OpRes r{o.name, o.key, {}};
             verif::note("b", i);
-            if (o.name == "ins" || o.name == "emp") {
+            const Elem ek(o.key);
+            bool is_ins = o.name == "ins" || o.name == "emp";
+            try {
+            if (is_ins) {
                 started[o.key]++; ins_started++;
                 t_height = o.arg ? o.arg : 1;
                 bool ok; const void* addr;
-                if (o.name == "ins") { auto pr = c.insert(T::val(o.key, t * 1000 + i)); ok = pr.second; addr = &*pr.first; if (T::key(*pr.first) != o.key) fail("insert returned an iterator to a different key"); }
-                else { auto pr = c.emplace(T::val(o.key, t * 1000 + i)); ok = pr.second; addr = &*pr.first; if (T::key(*pr.first) != o.key) fail("emplace returned an iterator to a different key"); }
+                auto v = T::val(o.key, t * 1000 + i);
+                if (o.name == "ins") { OpScope sc(t, i); auto pr = c.insert(std::move(v)); t_active = false; ok = pr.second; addr = &*pr.first; if (T::key(*pr.first) != o.key) fail("insert returned an iterator to a different key"); }
+                else { OpScope sc(t, i); auto pr = c.emplace(std::move(v)); t_active = false; ok = pr.second; addr = &*pr.first; if (T::key(*pr.first) != o.key) fail("emplace returned an iterator to a different key"); }
                 completed[o.key]++; ins_completed++;
                 if (ok) { wins[o.key]++; if (!elems_all.insert(addr).second) fail("two successful inserts returned the same element"); elems_done.insert(addr); }
                 else if (T::multi) fail("insert into a multi container reported failure");
+                if (arena().is_dead(addr)) fail("insert returned an iterator to a deallocated node");
                 r.vals.push_back(ok);
             } else if (o.name == "find" || o.name == "has") {
-                bool must = completed.count(o.key) || pre_cnt.count(o.key);
+                bool must = completed.count(o.key) || pre_cnt.count(o.key) || thrown_linked.count(o.key);
                 bool f;
-                if (o.name == "find") { auto it = c.find(o.key); f = it != c.end(); if (f && T::key(*it) != o.key) fail("find returned a different key"); }
-                else f = c.contains(o.key);
+                if (o.name == "find") { OpScope sc(t, i); auto it = c.find(ek); t_active = false; f = it != c.end(); if (f && T::key(*it) != o.key) fail("find returned a different key"); if (f && arena().is_dead(&*it)) fail("find returned a deallocated node"); }
+                else { OpScope sc(t, i); f = c.contains(ek); }
                 bool may = started.count(o.key) || pre_cnt.count(o.key);
                 if (must && !f) fail("find-after-insert: key " + std::to_string(o.key) + " not found although an insert of it had returned");
                 if (f && !may) fail("found key " + std::to_string(o.key) + " that nobody inserts");
                 r.vals.push_back(f);
             } else if (o.name == "lb") {
-                bool must = completed.count(o.key) || pre_cnt.count(o.key);
-                auto it = c.lower_bound(o.key);
+                bool must = completed.count(o.key) || pre_cnt.count(o.key) || thrown_linked.count(o.key);
+                OpScope sc(t, i);
+                auto it = c.lower_bound(ek);
+                t_active = false;
                 if (it == c.end()) { if (must) fail("lower_bound(" + std::to_string(o.key) + ") = end although the key is present"); r.vals.push_back(0); }
                 else {
                     uint64_t k = T::key(*it);
@@ -128,15 +184,19 @@ static bool run_once(verif::Schedule& sch, int run_idx, bool print) {
                     r.vals.push_back(1); r.vals.push_back(k);
                 }
             } else if (o.name == "cnt") {
-                long lo = pre_cnt.count(o.key) ? pre_cnt[o.key] : 0; if (T::multi) lo += wins.count(o.key) ? wins[o.key] : 0; else if (completed.count(o.key)) lo = 1;
-                long done_before = ins_completed;
-                size_t n = c.count(o.key);
+                long tl = thrown_linked.count(o.key) ? thrown_linked[o.key] : 0;
+                long lo = (pre_cnt.count(o.key) ? pre_cnt[o.key] : 0) + tl; if (T::multi) lo += wins.count(o.key) ? wins[o.key] : 0; else if (completed.count(o.key) || lo) lo = 1;
+                // inserts of OTHER keys that had completed (their node linked) when the call began
+                long done_before = ins_completed + n_thrown_linked - (completed.count(o.key) ? completed[o.key] : 0) - tl;
+                size_t n;
+                { OpScope sc(t, i); n = c.count(ek); }
                 long hi = (pre_cnt.count(o.key) ? pre_cnt[o.key] : 0) + (started.count(o.key) ? started[o.key] : 0); if (!T::multi && hi > 1) hi = 1;
-                // multi containers: count() = std::distance over equal_range(); elements of OTHER keys linked between the two
-                // iterators while it runs are counted too (reported as an observation, bounded by the inserts in flight)
-                long inflight = T::multi ? (ins_started - done_before) : 0;
+                // multi containers: count() = std::distance over equal_range(); elements linked between the two iterators while it
+                // runs are counted too (bounded by the inserts in flight)
+                // (caslist_count_bounds) lo <= n <= equivalent elements linked when it returns + elements of other keys linked meanwhile
+                long inflight = T::multi ? (ins_started - (started.count(o.key) ? started[o.key] : 0) - done_before) : 0;
                 if ((long)n < lo) fail("count(" + std::to_string(o.key) + ") = " + std::to_string(n) + " below the number of completed inserts " + std::to_string(lo));
-                if ((long)n > hi + inflight) fail("count(" + std::to_string(o.key) + ") = " + std::to_string(n) + " above the number of started inserts " + std::to_string(hi) + " (+" + std::to_string(inflight) + " in flight)");
+                if ((long)n > hi + inflight) fail("count(" + std::to_string(o.key) + ") = " + std::to_string(n) + " above the number of started inserts of the key " + std::to_string(hi) + " + " + std::to_string(inflight) + " inserts of other keys in flight during the call");
                 else if ((long)n > hi) observations.push_back("count(" + std::to_string(o.key) + ") = " + std::to_string(n) + " although only " + std::to_string(hi) + " such elements were ever inserted (concurrent inserts of other keys inside equal_range)");
                 r.vals.push_back(n);
             } else if (o.name == "trav") {
@@ -145,29 +205,76 @@ static bool run_once(verif::Schedule& sch, int run_idx, bool print) {
                 traverse(r.vals, addrs, "concurrent traversal");
                 check_traversal(r.vals, addrs, before, "concurrent traversal");
             }
+            } catch (const Injected& e) {
+                // the operation left by the injected exception (the OpScope has recorded its calls).  What does the container look like?
+                r.vals.assign(1, 2);
+                if (is_ins) {
+                    long ri = own_node_rec(t, i);
+                    if (ri >= 0) {
+                        const void* np = arena().base + arena().recs[ri].off;
+                        long l = reachable_level(np);
+                        if (l > 0) fail("a node whose insert threw is linked on level " + std::to_string(l) + " but not on level 0");
+                        if (l == 0) {
+                            // linked before the exception: the element stays (basic guarantee); it must stay alive
+                            thrown_linked[o.key]++; n_thrown_linked++; g_postlink++;
+                            node_ptr nn = (node_ptr)np;
+                            elems_done.insert(&nn->value()); elems_all.insert(&nn->value()); partial_nodes.insert(np);
+                            observations.push_back(std::string("insert left by an exception of the ") + F_NAMES[e.what] + " functor AFTER its node was linked on level 0: the element stays in the container (size() is not incremented, upper levels may be incomplete)");
+                        } else if (!arena().recs[ri].dead) {
+                            leak_ok.insert((size_t)ri); g_leaks++;
+                            observations.push_back(std::string("insert left by an exception of the ") + F_NAMES[e.what] + " functor before its node was linked: the node is neither linked nor deallocated (leaked)");
+                        }
+                    }
+                }
+            }
             verif::note("e", i);
             res[t].push_back(r);
+            g_ops_done[t]++;
         }
     });
     verif::Result rr = verif::run(bodies, sch, 100000);
     if (g_fair && g_fair->forced) observations.push_back("busy-wait: thread " + std::to_string(g_fair->spinner) + " ran " + std::to_string(g_fair->limit) +
         " consecutive steps without finishing (it spins on another thread's progress without pause/yield); " + std::to_string(g_fair->forced) + " forced switches");
+    arena().on_dealloc = nullptr;
+    bool focus_cas_failed = false;
+    for (auto& e : rr.log) if (e.kind == verif::K_CAS && !e.ok && e.tid == g_focus) focus_cas_failed = true;
 
     std::vector<uint64_t> fin; std::vector<const void*> fin_addrs;
     node_ptr head = c.my_head_ptr.a.load();
     size_t maxh = c.my_max_height.a.load();
+    for (auto& m : arena().errors) fail(m);
+    // no node that is reachable from the head on any level is dead (white box, raw pointers)
+    if (head && !rr.deadlock) {
+        for (size_t l = 0; l < C::max_level && err.empty(); ++l) {
+            size_t n = 0; bool any = false;
+            for (node_ptr x = head->get_atomic_next(l).a.load(); x && n < walk_bound; x = x->get_atomic_next(l).a.load(), ++n) {
+                any = true;
+                if (arena().is_dead(x)) { fail("a deallocated node is reachable from the head on level " + std::to_string(l)); break; }
+            }
+            if (!any) break;
+        }
+    }
+    std::vector<int> dead_before;
     if (!rr.deadlock) guarded([&] {
         traverse(fin, fin_addrs, "final traversal");
         check_traversal(fin, fin_addrs, elems_all, "final traversal");
         std::map<uint64_t, long> have, want = pre_cnt;
         for (auto k : fin) have[k]++;
         for (auto& kv : wins) if (kv.second) want[kv.first] += kv.second;
-        if (have != want) fail("final contents differ from the union of successful inserts");
-        if (c.size() != fin.size()) fail("size() = " + std::to_string(c.size()) + " but the list holds " + std::to_string(fin.size()));
+        for (auto& kv : thrown_linked) want[kv.first] += kv.second;
+        if (have != want) fail("final contents differ from the union of successful inserts" + std::string(n_thrown_linked ? " and of the inserts that threw after linking their node" : ""));
+        size_t sz = c.size();
+        if (sz > fin.size() || sz + (size_t)n_thrown_linked < fin.size()) fail("size() = " + std::to_string(sz) + " but the list holds " + std::to_string(fin.size()));
         for (auto& kv : started) {
-            long exp = T::multi ? kv.second : (pre_cnt.count(kv.first) ? 0 : 1);
             long w = wins.count(kv.first) ? wins[kv.first] : 0;
-            if (w != exp) fail("key " + std::to_string(kv.first) + ": " + std::to_string(w) + " inserts reported success, expected " + std::to_string(exp));
+            long tl = thrown_linked.count(kv.first) ? thrown_linked[kv.first] : 0;
+            long done = completed.count(kv.first) ? completed[kv.first] : 0;
+            long pre = pre_cnt.count(kv.first) ? pre_cnt[kv.first] : 0;
+            if (T::multi) { if (w != done) fail("key " + std::to_string(kv.first) + ": " + std::to_string(w) + " inserts reported success, expected " + std::to_string(done)); }
+            else {
+                long present = pre + w + tl;
+                if (present > 1 || (done > 0 && present != 1)) fail("key " + std::to_string(kv.first) + ": " + std::to_string(w) + " inserts reported success, expected " + std::to_string(pre + tl ? 0 : 1));
+            }
         }
         // level structure: every level is a sub-sequence of the level below (white box)
         if (head && err.empty()) {
@@ -183,27 +290,50 @@ static bool run_once(verif::Schedule& sch, int run_idx, bool print) {
                 if (l >= maxh && !lev.empty()) fail("level " + std::to_string(l) + " is populated above my_max_height");
                 size_t j = 0;
                 for (node_ptr x : lev) { while (j < below.size() && below[j] != x) ++j; if (j == below.size()) { fail("level " + std::to_string(l) + " is not a sub-sequence of level " + std::to_string(l - 1)); break; } ++j; }
-                // every node tall enough must be on the level
-                size_t cnt = 0; for (node_ptr x : below) if (x->height() > l) ++cnt;
-                if (err.empty() && cnt != lev.size()) fail("level " + std::to_string(l) + " misses nodes of sufficient height");
+                // every node tall enough must be on the level (a node whose insert threw while linking the upper levels is exempt)
+                size_t cnt = 0, exempt = 0; for (node_ptr x : below) if (x->height() > l) { ++cnt; if (partial_nodes.count(x) && std::find(lev.begin(), lev.end(), x) == lev.end()) ++exempt; }
+                if (err.empty() && cnt != lev.size() + exempt) fail("level " + std::to_string(l) + " misses nodes of sufficient height");
                 below.swap(lev);
                 if (below.empty()) break;
             }
         }
         // lookups from the top level land on the level-0 lower bound
         for (size_t i = 0; i < fin.size() && err.empty(); ++i) {
-            auto it = c.lower_bound(fin[i]);
+            auto it = c.lower_bound(Elem(fin[i]));
             size_t first = 0; while (first < fin.size() && fin[first] != fin[i]) ++first;
             if (it == c.end() || (const void*)&*it != fin_addrs[first]) fail("lower_bound(" + std::to_string(fin[i]) + ") is not the first element with that key");
-            if (c.find(fin[i]) == c.end()) fail("element " + std::to_string(fin[i]) + " not found at quiescence");
-            if (c.count(fin[i]) != (size_t)have[fin[i]]) fail("count(" + std::to_string(fin[i]) + ") wrong at quiescence");
+            if (c.find(Elem(fin[i])) == c.end()) fail("element " + std::to_string(fin[i]) + " not found at quiescence");
+            if (c.count(Elem(fin[i])) != (size_t)have[fin[i]]) fail("count(" + std::to_string(fin[i]) + ") wrong at quiescence");
         }
-        }, "quiescent lookups/traversal");
+        // snapshot of what the run itself deallocated, then tear the container down: clear() + destructor free every node exactly once
+        for (auto& rec : arena().recs) dead_before.push_back(rec.dead);
+        if (err.empty()) {
+        c.clear();
+        for (auto& m : arena().errors) fail("clear(): " + m);
+        if (err.empty()) {
+            for (size_t ri = arena_mark; ri < arena().recs.size(); ++ri) {
+                const void* np = arena().base + arena().recs[ri].off;
+                if (np == (const void*)head) { if (arena().recs[ri].dead) fail("clear() deallocated the head node"); continue; }
+                if (arena().recs[ri].dead == 0 && !leak_ok.count(ri)) { fail("node allocation #" + std::to_string(ri - arena_mark) + " is never deallocated although no exception was thrown in its insert (leak)"); break; }
+            }
+            if (c.begin() != c.end() || c.size() != 0) fail("container not empty after clear()");
+        }
+        if (err.empty()) {
+            cp->~C();
+            for (auto& m : arena().errors) fail("destructor: " + m);
+            for (size_t ri = arena_mark; ri < arena().recs.size() && err.empty(); ++ri)
+                if (arena().recs[ri].dead != 1 && !leak_ok.count(ri)) fail("after the destructor allocation #" + std::to_string(ri - arena_mark) + " has been deallocated " + std::to_string(arena().recs[ri].dead) + " times");
+        }
+        }
+        }, "quiescent lookups/traversal/clear()/destructor");
+    if (dead_before.empty()) for (auto& rec : arena().recs) dead_before.push_back(rec.dead);
     if (!observations.empty()) g_obs_runs++;
     bool ok = err.empty() && !rr.deadlock;
-    if (print || !ok) {
+    g_last_fired = fc.fired;
+    if (fc.fired && fc.what >= 0) g_fired_by[fc.what]++;
+    if (print == 1 || !ok || (print == 2 && focus_cas_failed) || (print == 3 && fc.fired)) {
         std::map<const void*, std::string> var; std::map<uint64_t, std::string> val;
-        std::vector<std::string> node_lines;
+        std::vector<std::string> node_lines; std::string dead_line = "dead";
         long nid = 0;
         for (size_t ri = arena_mark; ri < arena().recs.size(); ++ri) {
             auto& rec = arena().recs[ri];
@@ -215,6 +345,7 @@ static bool run_once(verif::Schedule& sch, int run_idx, bool print) {
             size_t h = (rec.bytes - sizeof(*np)) / sizeof(void*);
             for (size_t l = 0; l < h; ++l) var[&np->get_atomic_next(l)] = name + ".next" + std::to_string(l);
             if (np != head) node_lines.push_back("node " + name.substr(1) + " " + std::to_string(T::key(np->value())) + " " + std::to_string(h));
+            if (np != head && dead_before[ri]) dead_line += " " + name.substr(1);
         }
         var[&c.my_head_ptr] = "headptr"; var[&c.my_max_height] = "maxh"; var[&c.my_size] = "size";
         printf("run %d\n", run_idx);
@@ -224,7 +355,11 @@ static bool run_once(verif::Schedule& sch, int run_idx, bool print) {
             return std::to_string(x);
         };
         for (auto& e : rr.log) {
-            if (e.kind == verif::K_NOTE) { printf("o %d %s %llu\n", e.tid, e.tag, (unsigned long long)e.a); continue; }
+            if (e.kind == verif::K_NOTE) {
+                if (e.tag[0] == 'x') printf("x %d %s %llu\n", e.tid, F_NAMES[e.a < F_N ? e.a : 0], (unsigned long long)e.b);
+                else printf("o %d %s %llu\n", e.tid, e.tag, (unsigned long long)e.a);
+                continue;
+            }
             if (e.kind > verif::K_FXOR) continue;
             auto it = var.find(e.addr);
             std::string v = it == var.end() ? "anon" : it->second;
@@ -235,6 +370,13 @@ static bool run_once(verif::Schedule& sch, int run_idx, bool print) {
             for (auto v : res[t][i].vals) printf(" %llu", (unsigned long long)v);
             printf("\n");
         }
+        for (size_t t = 0; t < T_n; ++t) for (size_t i = 0; i < fc.calls[t].size(); ++i) {
+            bool any = false; for (int f = 0; f < F_N; ++f) if (fc.calls[t][i].n[f]) any = true;
+            if (!any) continue;
+            printf("calls %zu %zu", t, i); for (int f = 0; f < F_N; ++f) if (fc.calls[t][i].n[f]) printf(" %s=%ld", F_NAMES[f], fc.calls[t][i].n[f]); printf("\n");
+        }
+        if (fc.tid >= 0) printf("fault %d %d %s %ld %d\n", fc.tid, fc.op, F_NAMES[fc.what], fc.k, fc.fired ? 1 : 0);
+        printf("%s\n", dead_line.c_str());
         printf("fin"); for (auto k : fin) printf(" %llu", (unsigned long long)k); printf("\n");
         printf("maxhfin %zu\n", maxh);
         for (auto& ob : observations) printf("obs %s\n", ob.c_str());
@@ -246,23 +388,115 @@ static bool run_once(verif::Schedule& sch, int run_idx, bool print) {
     return ok;
 }
 
+struct FaultPos { int tid, op, what; long k; };
+// every (thread, operation, functor, k) with k <= the number of calls the operation made in the run that has just finished
+static std::vector<FaultPos> fault_positions(int only_tid, long cap) {
+    std::vector<FaultPos> all;
+    FaultCtl& fc = fctl();
+    for (size_t t = 0; t < fc.calls.size(); ++t) {
+        if (only_tid >= 0 && (int)t != only_tid) continue;
+        for (size_t i = 0; i < fc.calls[t].size(); ++i) for (int f = 0; f < F_N; ++f)
+            for (long k = 1; k <= fc.calls[t][i].n[f]; ++k) all.push_back({(int)t, (int)i, f, k});
+    }
+    if (cap > 0 && (long)all.size() > cap) {      // evenly spaced sample that keeps the first and the last position
+        std::vector<FaultPos> s;
+        for (long j = 0; j < cap; ++j) s.push_back(all[(size_t)((double)j * (all.size() - 1) / (cap - 1) + 0.5)]);
+        return s;
+    }
+    return all;
+}
+
+// which of the n fault runs of one base schedule are printed (for the replay on the Lean model): `printcap` of them, evenly
+// spread, the offset rotating with the base schedule so that all functor kinds and call positions get printed over time
+static bool print_pick(size_t fi, size_t n, long printcap, size_t rot) {
+    if (printcap <= 0 || n == 0) return false;
+    if ((size_t)printcap >= n) return true;
+    for (long j = 0; j < printcap; ++j) if ((j * n / printcap + rot) % n == fi) return true;
+    return false;
+}
+
 template <class C> static int drive(int argc, char** argv) {
     std::string mode = argv[1];
     long maxruns = argc > 3 ? atol(argv[3]) : 1;
-    long runs = 0, bad = 0;
+    long cap = argc > 4 ? atol(argv[4]) : 0, printcap = argc > 5 ? atol(argv[5]) : 0;
+    long runs = 0, bad = 0, fired = 0;
+    FaultCtl& fc = fctl();
+    if (g_sc.f_tid >= 0) fc.arm(g_sc.f_tid, g_sc.f_op, g_sc.f_what, g_sc.f_k);
     if (mode == "rand") {
         unsigned long long seed = strtoull(argv[2], 0, 10);
-        for (long i = 0; i < maxruns; ++i) { verif::RandomSchedule s(seed * 7919 + i, 32 + (int)(i % 4) * 56); if (!run_once<C>(s, (int)i, true)) bad++; runs++; }
+        for (long i = 0; i < maxruns; ++i) { verif::RandomSchedule s(seed * 7919 + i, 32 + (int)(i % 4) * 56); if (!run_once<C>(s, (int)i, 1)) bad++; runs++; }
+    } else if (mode == "frand") {
+        unsigned long long seed = strtoull(argv[2], 0, 10);
+        for (long i = 0; i < maxruns && !bad; ++i) {
+            fc.disarm();
+            { verif::RandomSchedule s(seed * 7919 + i, 32 + (int)(i % 4) * 56); if (!run_once<C>(s, (int)runs, 1)) { bad++; break; } runs++; }
+            auto fps = fault_positions(-1, cap);
+            for (size_t fi = 0; fi < fps.size(); ++fi) {
+                auto& fp = fps[fi];
+                fc.arm(fp.tid, fp.op, fp.what, fp.k);
+                verif::RandomSchedule s(seed * 7919 + i, 32 + (int)(i % 4) * 56);
+                bool ok = run_once<C>(s, (int)runs, print_pick(fi, fps.size(), printcap, (size_t)(i + seed)) ? 3 : 0);
+                runs++; if (g_last_fired) fired++;
+                if (!ok) { bad++; break; }
+            }
+        }
     } else if (mode == "dfs") {
         verif::DfsSchedule d(atoi(argv[2]));
         FairSchedule f(d);
-        do { d.pos = 0; d.preempts = 0; f.reset(); g_fair = &f; if (!run_once<C>(f, (int)runs, false)) { bad++; break; } runs++; } while (runs < maxruns && d.next());
+        do { d.pos = 0; d.preempts = 0; f.reset(); g_fair = &f; if (!run_once<C>(f, (int)runs, 0)) { bad++; break; } runs++; } while (runs < maxruns && d.next());
+    } else if (mode == "guide") {
+        GuideSchedule g; g.segs = GuideSchedule::parse(argv[2]); g.ops_done = &g_ops_done;
+        FairSchedule f(g); g_fair = &f;
+        if (!run_once<C>(f, 0, 1)) bad++; runs++;
+    } else if (mode == "sweep" || mode == "fsweep") {
+        bool faults = mode == "fsweep";
+        int H = atoi(argv[2]); g_focus = H;
+        std::vector<int> others; for (size_t t = 0; t < g_sc.progs.size(); ++t) if ((int)t != H) others.push_back((int)t);
+        std::vector<std::vector<int>> orders;       // every ordered selection of 1..n of the other threads
+        std::function<void(std::vector<int>&)> gen = [&](std::vector<int>& cur) {
+            if (!cur.empty()) orders.push_back(cur);
+            for (int t : others) { bool used = false; for (int u : cur) if (u == t) used = true; if (used) continue; cur.push_back(t); gen(cur); cur.pop_back(); }
+        };
+        std::vector<int> cur0; gen(cur0);
+        bool stop = false;
+        for (long j = 1; j < 2000 && !stop && !bad; ++j) {
+            for (auto& ord : orders) {
+                if (runs >= maxruns) { stop = true; break; }
+                auto guided = [&](int pr) {
+                    GuideSchedule g; g.ops_done = &g_ops_done;
+                    g.segs.push_back({H, '*', j});
+                    for (int t : ord) g.segs.push_back({t, '!', 0});
+                    g.segs.push_back({H, '!', 0});
+                    FairSchedule f(g); g_fair = &f;
+                    bool ok = run_once<C>(f, (int)runs, pr);
+                    runs++;
+                    if (g.first_short) stop = true;       // H finished within j picks: every hold point has been visited
+                    return ok;
+                };
+                fc.disarm();
+                if (!guided(!faults && cap == 1 ? 1 : 2)) { bad++; break; }      // `sweep H maxruns 1`: print every run
+                if (!faults) continue;
+                bool stop_clean = stop;
+                auto fps = fault_positions(H, cap);
+                for (size_t fi = 0; fi < fps.size(); ++fi) {
+                    auto& fp = fps[fi];
+                    fc.arm(fp.tid, fp.op, fp.what, fp.k);
+                    bool ok = guided(print_pick(fi, fps.size(), printcap, (size_t)(j * 7 + runs)) ? 3 : 0);
+                    if (g_last_fired) fired++;
+                    if (!ok) { bad++; break; }
+                }
+                stop = stop_clean;
+                if (bad) break;
+            }
+        }
     } else if (mode == "replay") {
         verif::ReplaySchedule s; s.tids = strcmp(argv[2], "-") ? parse_sched(argv[2]) : g_sc.sched;
         FairSchedule f(s); g_fair = &f;
-        if (!run_once<C>(f, 0, true)) bad++; runs++;
+        if (!run_once<C>(f, 0, 1)) bad++; runs++;
     }
-    printf("summary runs=%ld bad=%ld obs=%ld\n", runs, bad, g_obs_runs);
+    printf("summary runs=%ld bad=%ld obs=%ld fired=%ld postlink=%ld leaks=%ld byf", runs, bad, g_obs_runs, fired, g_postlink, g_leaks);
+    for (int f = 0; f < F_N; ++f) printf(" %s=%ld", F_NAMES[f], g_fired_by[f]);
+    printf("\n");
     return bad ? 1 : 0;
 }
 
